@@ -108,6 +108,9 @@ ArithVerdict(op, args, res) ==
         ELSE Reported(res) /\ (res.k = "value" /\ IsExactV(res.v) => ResIsExactEqual(res, p.q)))   \* never a wrong exact number
   ELSE \* an inexact operand: the IEEE result on the converted operands
        \/ ResIsReal(res, p.r)
+       \* r7rs 6.2.6: an exact zero divisor "is an error" also for an inexact dividend - signalling it is allowed
+       \/ (op = "/" /\ ResIsError(res, "DivByZero") /\
+           \E i \in DOMAIN args : (i > 1 \/ Len(args) = 1) /\ IsExactV(args[i]) /\ QIsZero(QOf(args[i])))
        \/ (~AllSmall(args) /\ res.k = "value" /\ IsRealV(res.v))   \* big exact operands: conversion order / intermediate overflow not fixed
 
 UnaryVerdict(op, a, res) ==
